@@ -77,6 +77,7 @@ def order_s(draw, allow_none=True):
 # interface wirings of two contracts
 
 WIRINGS = ["independent", "cascade12", "cascade21", "shared_in", "feedback", "mixed"]
+WIRINGS_W = ["cascade12", "cascade21", "mixed", "independent", "cascade12", "cascade21", "shared_in", "feedback", "mixed", "cascade12"]
 
 
 @st.composite
@@ -134,7 +135,7 @@ def wild_contract_s(draw, ins, outs, w, assume_on=None, dyadic=True, na=(0, 2), 
 
 
 @st.composite
-def contract_pair_s(draw, kinds=WIRINGS, dyadic=True, feedback_assumptions=False):
+def contract_pair_s(draw, kinds=WIRINGS_W, dyadic=True, feedback_assumptions=False):
     """Two contracts over a wiring, sharing a witness so that everything is jointly satisfiable."""
     wr = draw(wiring_s(kinds))
     names = sorted(set(wr["i1"] + wr["o1"] + wr["i2"] + wr["o2"]))
